@@ -832,14 +832,14 @@ func runC19(e *Env) {
 			}
 			n := c.tiling(p, "random", 4096, r)
 			note(p, n)
-			// sidecar: every pair with an affordable bitmap in quick, one in four in thorough
-			if n <= 1<<16 && (!e.Thorough() || j%4 == 0) {
+			// sidecar: every pair with an affordable bitmap (<= 8 KiB) in quick, every second one in thorough
+			if n <= 1<<16 && (!e.Thorough() || j%2 == 0) {
 				if sc := c.sidecarDirect(p, "random", n, dir); sc != nil {
 					os.Remove(sc.Path)
 				}
 			}
 			// receivers: a sample (each run creates an output tree)
-			if n <= 1<<14 && j%e.Pick(10, 100) == 0 {
+			if n <= 1<<14 && j%e.Pick(10, 50) == 0 {
 				sub := c.dir()
 				c.muxObserve(p, "random", n, nil, sub, false)
 				if j%e.Pick(50, 500) == 0 {
